@@ -2,7 +2,7 @@ from common import LEAN_TB
 
 CHECK = {
     "title": "A layer tarball faithfully and canonically serializes the built filesystem",
-    "modules": ["Apko.Proofs.C06"],
+    "modules": ["Apko.Proofs.C06", "Apko.Proofs.Lemmas.TarWFNode", "Apko.Proofs.Lemmas.TarWFReach"],
     "suites": [("tar", 1500, 24000), ("tar-concurrent", 40, 600)],
     "race_suites": ["tar-concurrent"],
     "budget_quick": 100,
